@@ -497,6 +497,30 @@ func (n *Node) ProduceAt(t time.Time) ([]Created, error) {
 	return out, n.LastProduceErr
 }
 
+// ProduceAs hands the local pillar with coinbase addr a producer event for slot t whether or not addr is elected for it
+// (a pillar acting on a stale plan: consensus computes a tick's events once and fires them over the following minutes).
+func (n *Node) ProduceAs(t time.Time, addr types.Address) ([]Created, error) {
+	Clock.Set(t)
+	n.Created = nil
+	n.LastProduceErr = nil
+	found := false
+	for _, p := range n.Pillars {
+		if *p.GetCoinBase() == addr {
+			found = true
+			task := p.Process(consensus.ProducerEvent{Producer: addr, StartTime: t, EndTime: t.Add(10 * time.Second)})
+			if task != nil {
+				<-task.Finished()
+			}
+		}
+	}
+	if !found {
+		return nil, fmt.Errorf("no local pillar with coinbase %v", addr)
+	}
+	out := n.Created
+	n.Created = nil
+	return out, n.LastProduceErr
+}
+
 func SignerFor(addr types.Address) vm.SignFunc {
 	for _, kp := range g.AllKeyPairs {
 		if kp.Address == addr {
